@@ -41,3 +41,17 @@ Theorem c13_ws_close_spec : forall outcome,
   ws_close 0 false = 1000%Z /\ ws_close outcome true = 1003%Z /\ (outcome <> 0%Z -> ws_close outcome false = 1001%Z).
 Proof. exact ws_close_spec. Qed.
 Print Assumptions c13_ws_close_spec.
+
+(* the reason of the close frame (after the repair F32): whatever the status message, at most 123 bytes, a prefix of
+   "code <Name>: <message>", and the cut never falls inside a multi-byte character (what follows the cut does not begin
+   with a continuation byte) - so a valid UTF-8 reason stays valid and the client can read the code *)
+Theorem c13_close_reason_cut : forall s,
+  (length (truncate_reason s) <= max_reason)%nat /\
+  (exists rest, s = truncate_reason s ++ rest /\
+     (rest = [] \/ truncate_reason s = [] \/ is_cont (hd 0%N rest) = false)).
+Proof. exact truncate_reason_spec. Qed.
+Print Assumptions c13_close_reason_cut.
+
+Theorem c13_close_reason_limit : max_reason = Extracted.ws_max_reason.
+Proof. exact max_reason_source. Qed.
+Print Assumptions c13_close_reason_limit.
